@@ -73,9 +73,9 @@ func c15NewUniverse(thorough bool) *c15Universe {
 		mods1: []string{"basename", "dirname", "%.txt", "%_s", "s/a/b/"}, len1: 2,
 		mods23: []string{"basename", "dirname", "%.txt", "%_s", "s/a/b/"}, len2: 1, len3: 1, lenSec: 1, lenMV: 1,
 		vals: map[string][]string{
-			"x": {"d/e.txt", "a.b/c", "x/d/e_s", "e.txt"},
+			"x": {"d/e.txt", "a.b/c", "x/d/e_s", "e.txt", "d/xt.txt"}, // "xt.txt": the stem ends in characters of the suffix
 			"u": {"f/g.txt", "a_s"},
-			"z": {"v", "a_s", "d/e.txt"},
+			"z": {"v", "a_s", "d/e.txt", "ss_s"},
 			"q": {"7", "a.txt"},
 			"w": {"g", "a.txt"},
 			"y": {"o.txt", "d/a_s"},
